@@ -136,6 +136,14 @@ class CallMixin:
         if is_local or f.module in INLINE_MODULES or (c is not None and c.inline) or key in getattr(self, "inline_ok", ()) \
                 or f.module.startswith("spec.") or f.module.startswith("lemmas."):
             return self.run_body(st, f, args, kwargs, c)
+        if c is None and isinstance(node, (ast.FunctionDef,)) and key != self.current_target \
+                and not any(isinstance(x, (ast.For, ast.While, ast.AsyncFor, ast.Yield, ast.YieldFrom)) for x in ast.walk(node)) \
+                and not any(isinstance(x, ast.Call) and isinstance(x.func, ast.Name) and x.func.id == node.name for x in ast.walk(node)) \
+                and sum(1 for x in ast.walk(node) if isinstance(x, ast.stmt)) <= 25:
+            # a helper without contract that has no loop and does not call itself (typically one extracted by a refactoring):
+            # executing its real body in place is always sound, so it is inlined rather than reported as outside the subset
+            st.notes.append(f"auto-inlined contract-less loop-free helper {key}")
+            return self.run_body(st, f, args, kwargs, c)
         raise OutsideSubset(f"call to {key}, which has neither a contract nor an inline mark")
 
     def bind_params(self, st, f: Func, args, kwargs, env):
@@ -525,6 +533,9 @@ class CallMixin:
             d = self.to_z(st, self.ev_spec(st, A[0]), T("dyn")).e
             cls = ast.literal_eval(A[1]) if len(A) > 1 else None
             return Z(T("ref", (), cls), smt.dyn_acc("DRef", 0, d))
+        if name == "d_name":
+            d = self.to_z(st, self.ev_spec(st, A[0]), T("dyn")).e
+            return Z(T("str"), smt.dyn_acc("DName", 0, d))
         if name in ("d_int", "d_float", "d_list", "d_chars"):
             d = self.to_z(st, self.ev_spec(st, A[0]), T("dyn")).e
             if name == "d_int":
